@@ -33,7 +33,7 @@ HAND_FILES = ["Props/C23_model.v", "Props/C23_syn.v", "Props/C23_syn2.v", "Props
               "Props/C23_real.v", "Props/C23_eqc.v"]
 
 TY = {"real": 0, "complex": 1, "bool": 2}
-VARIANT = {"fixm": False, "fixp": False}      # set by T1 from the source
+VARIANT = {"cl": ["Sqrt"], "fixp": False}      # set by T1 from the source
 
 EXTRA_HEADER = r'''
 (* "the data are real": real part and conjugation are the identity *)
@@ -62,19 +62,21 @@ def t1_rules(run):
     problems += p1 + p2
     problems += L.parse_entry(ccp, "do_comparison_check", "CheckComparisons", "form")
     problems += L.parse_entry(rmp, "remove_complex_nodes", "ComplexNodeRemoval", "expr")
-    # which of the two known variants of the analysis does the source implement?
-    #   fixm: handlers ln / acos / asin / bessel_function aliased to sqrt (typed complex)
-    #   fixp: power converts only literal RealValue | Zero exponents
-    # (pinned tree: neither; fixes/C23-partial-mathfn.diff: both; anything else fails an obligation below)
-    FIX_ALIASES = {"ln", "acos", "asin", "bessel_function"}
-    fixm = any(a in FIX_ALIASES for a, _ in cc_alias)
-    fixp = any(n == "power" and r[0] == "HPowerLit" for n, r in cc_rules)
-    VARIANT["fixm"], VARIANT["fixp"] = fixm, fixp
-    bm, bp = ("true" if fixm else "false"), ("true" if fixp else "false")
     names = model_table("cc_dispatch")
     cc_disp, _ = L.dispatch_table(CheckComparisons, names, cc_alias)
     rm_disp, _ = L.dispatch_table(ComplexNodeRemoval, names, rm_alias)
+    # the variant of the analysis the source implements:
+    #   cl   = the math-function / Bessel node classes dispatched to the constant-"complex" rule `sqrt`
+    #          (any subset is representable; the model's check takes it as a parameter)
+    #   fixp = power converts only literal RealValue | Zero exponents
+    FN = set(L.MATH_FNS) | set(L.BESSEL_FNS)
+    cl = [c for c, h in cc_disp if c in FN and h == "sqrt"]
+    fixp = any(n == "power" and r[0] == "HPowerLit" for n, r in cc_rules)
+    VARIANT["cl"], VARIANT["fixp"] = cl, fixp
+    bp = "true" if fixp else "false"
+    BASE_ALIASES = {"gt", "lt", "ge", "le", "sign"}
     q = L.coq_str
+    clq = "[" + "; ".join(q(c) for c in cl) + "]"
     txt = ["(* generated from /repo by py/props/C23.py (T1): the handler tables of CheckComparisons and\n"
            "   ComplexNodeRemoval as the source states them, proved equal to the tables of the hand model *)\n"
            "Require Import UFLV.Core.Den.\nRequire Import UFLV.Props.C23_model.\nRequire Import UFLV.Props.C23_eqc.\n"
@@ -85,8 +87,12 @@ def t1_rules(run):
         txt.append(f"Example src_cc_rule_{nm} : lookup {q(nm)} (cc_rules {bp}) = Some {L.coq_rule(r)}. Proof. reflexivity. Qed.\n")
     txt.append(f"Example src_cc_rule_count : List.length (cc_rules {bp}) = {len(cc_rules)}. Proof. reflexivity. Qed.\n")
     for a, b in cc_alias:
-        txt.append(f"Example src_cc_alias_{a} : lookup {q(a)} (cc_aliases {bm}) = Some {q(b)}. Proof. reflexivity. Qed.\n")
-    txt.append(f"Example src_cc_alias_count : List.length (cc_aliases {bm}) = {len(cc_alias)}. Proof. reflexivity. Qed.\n")
+        if a in BASE_ALIASES:
+            txt.append(f"Example src_cc_alias_{a} : lookup {q(a)} (cc_aliases false) = Some {q(b)}. Proof. reflexivity. Qed.\n")
+        else:
+            txt.append(f"Example src_cc_alias_{a} : alias_ok ({q(a)}, {q(b)}) = true. Proof. reflexivity. Qed.\n")
+    nb = sum(1 for a, _ in cc_alias if a in BASE_ALIASES)
+    txt.append(f"Example src_cc_alias_count : List.length (cc_aliases false) = {nb}. Proof. reflexivity. Qed.\n")
     for nm, r in rm_rules:
         txt.append(f"Example src_rm_rule_{nm} : lookup {q(nm)} rm_rules = Some {L.coq_rule(r)}. Proof. reflexivity. Qed.\n")
     txt.append(f"Example src_rm_rule_count : List.length rm_rules = {len(rm_rules) + len(rm_alias)}. Proof. reflexivity. Qed.\n")
@@ -100,7 +106,7 @@ def t1_rules(run):
     txt.append(f"Example src_rm_cutoff_handlers : [{'; '.join(q(n) for n in rm_cut)}] = rm_cutoff_handlers. Proof. reflexivity. Qed.\n")
     if cc_cut or rm_cut:
         problems.append(f"cutoff handlers (operands not visited): CheckComparisons {cc_cut}, ComplexNodeRemoval {rm_cut}")
-    txt.append(f"Example src_cc_dispatch : cc_dispatch {bm} = [{cd}]. Proof. reflexivity. Qed.\n")
+    txt.append(f"Example src_cc_dispatch : cc_dispatch_cl {clq} = [{cd}]. Proof. reflexivity. Qed.\n")
     txt.append(f"Example src_rm_dispatch : rm_dispatch = [{rd}]. Proof. reflexivity. Qed.\n")
     path = os.path.join(vlib.GEN, "C23_rules.v")
     vlib.write_if_changed(path, "".join(txt))
@@ -201,7 +207,7 @@ def build_cases(run, mode, n, seed):
             stats["value_only"] += 1
         if mode == "complex":
             impl = f"(Some ({to}, {TY[t]}))" if out is not None else "None"
-            c.text = f"agree_check {'true' if VARIANT['fixm'] else 'false'} {ti} {impl}"
+            c.text = f"agree_check CL {ti} {impl}"
         else:
             impl = f"(Some {to})" if out is not None else "None"
             c.text = f"agree_remove {ti} {impl}"
@@ -220,22 +226,25 @@ def build_cases(run, mode, n, seed):
     return cases
 
 
-CASE_HDR = ("Require Import UFLV.Core.Den.\nRequire Import UFLV.Props.C23_model.\n"
-            "Require Import UFLV.Props.C23_eqc.\n")
+def case_hdr():
+    cl = "[" + "; ".join(L.coq_str(c) + "%string" for c in VARIANT["cl"]) + "]"
+    return ("Require Import UFLV.Core.Den.\nRequire Import UFLV.Props.C23_model.\n"
+            "Require Import UFLV.Props.C23_eqc.\nRequire Import String.\n"
+            f"Definition CL : list String.string := {cl}.\n")
 
 
-def check_cases(run, cases, shard_size):
-    """Write Gen/C23_cases_<k>.v, compile, return the list of cases whose Example fails."""
+def check_cases(run, cases, shard_size, fam="cases"):
+    """Write Gen/C23_<fam>_<k>.v, compile, return the list of cases whose Example fails."""
     st = [c for c in cases if c.structural]
     shards = [st[i:i + shard_size] for i in range(0, len(st), shard_size)]
     paths = []
     for k, sh in enumerate(shards):
         body = "".join(f"Example {c.name} : {c.text} = true.\nProof. vm_compute. reflexivity. Qed.\n" for c in sh)
-        p = os.path.join(vlib.GEN, f"C23_cases_{k}.v")
-        vlib.write_if_changed(p, CASE_HDR + body)
+        p = os.path.join(vlib.GEN, f"C23_{fam}_{k}.v")
+        vlib.write_if_changed(p, case_hdr() + body)
         paths.append(p)
     for f in os.listdir(vlib.GEN):
-        if re.match(r"C23_(cases|eval)_\d+\.v$", f) and os.path.join(vlib.GEN, f) not in paths:
+        if re.match(r"C23_(%s|%seval)_\d+\.v$" % (fam, fam), f) and os.path.join(vlib.GEN, f) not in paths:
             os.remove(os.path.join(vlib.GEN, f))
     results = vlib.coqc_many(paths, timeout=800, jobs=min(4, vlib.NCPU))
     bad = []
@@ -245,9 +254,9 @@ def check_cases(run, cases, shard_size):
             run.add_coq_result(res, names)
             continue
         # one Eval-only pass over the shard to find ALL disagreeing cases
-        ev = res.path.replace("C23_cases_", "C23_eval_")
+        ev = res.path.replace(f"C23_{fam}_", f"C23_{fam}eval_")
         body = "".join(f"Eval vm_compute in ({c.text}).\n" for c in sh)
-        vlib.write_if_changed(ev, CASE_HDR + body)
+        vlib.write_if_changed(ev, case_hdr() + body)
         r2 = vlib.coqc(ev, timeout=800)
         vals = re.findall(r"=\s*(true|false)\s*:\s*bool", r2.out or "")
         rel = os.path.relpath(res.path, vlib.COQ)
@@ -262,8 +271,89 @@ def check_cases(run, cases, shard_size):
             else:
                 run.failed.append((c.name, rel, "model and implementation disagree"))
                 bad.append(c)
-    run.checker_cmds.append("coqc -Q coq UFLV coq/Gen/C23_cases_*.v")
+    run.checker_cmds.append(f"coqc -Q coq UFLV coq/Gen/C23_{fam}_*.v")
     return bad
+
+
+# ------------------------------------------------------------------------------------------------
+# pipeline tie: the real compute_form_data on forms with nonlinear operators under derivatives
+
+PIPE_OPTS = [
+    {},
+    {"do_apply_function_pullbacks": True, "do_apply_integral_scaling": True, "do_apply_geometry_lowering": True,
+     "do_apply_restrictions": True},
+]
+
+
+class PCase:
+    def __init__(self, name, mode, kind, form, opts, integrand):
+        self.name, self.mode, self.kind, self.form, self.opts, self.integrand = name, mode, kind, form, opts, integrand
+        self.text = None
+        self.py_problem = None
+
+
+def pipeline_cases(run, n, seed):
+    """Run compute_form_data(form, complex_mode=True/False) on generated forms; one case per output integrand."""
+    from ufl.algorithms import compute_form_data
+    from ufl.algorithms.check_arities import ArityMismatch
+    from ufl.algorithms.comparison_checker import ComplexComparisonError, do_comparison_check
+    g = L.PipeGen(seed * 104729 + 5)
+    stats = {"forms": 0, "rejected": 0, "errors": 0, "integrands": 0, "fallback_python_only": 0}
+    cases, errs = [], []
+    for i in range(n):
+        kind, form = g.form()
+        stats["forms"] += 1
+        for mode in ("complex", "real"):
+            opts = PIPE_OPTS[(i // 2) % 2 if i % 2 else 0]
+            try:
+                fd = compute_form_data(form, complex_mode=(mode == "complex"), **opts)
+            except ComplexComparisonError:
+                stats["rejected"] += 1
+                continue
+            except ValueError as ex:
+                if mode == "real" and "Unexpected" in str(ex):      # imag / complex literal: rejected in real mode
+                    stats["rejected"] += 1
+                    continue
+                stats["errors"] += 1
+                continue
+            except (Exception, ArityMismatch) as ex:   # arity / degree / unsupported combinations of the generated form
+                stats["errors"] += 1
+                if len(errs) < 3:
+                    errs.append(f"{kind}: {type(ex).__name__}: {str(ex)[:120]}")
+                continue
+            seen = set()
+            outs = [itg.integrand() for itg in fd.preprocessed_form.integrals()]
+            outs += [itg.integrand() for idata in fd.integral_data for itg in idata.integrals]
+            for out in outs:
+                if id(out) in seen:
+                    continue
+                seen.add(id(out))
+                c = PCase(f"{'pc' if mode == 'complex' else 'pr'}_{len(cases)}", mode, kind, form, opts, out)
+                # the property on the real output, decided in Python (always)
+                if mode == "complex":
+                    c.py_problem = L.bad_ordering_site(out)
+                    if c.py_problem is None:
+                        try:
+                            do_comparison_check(out)
+                        except ComplexComparisonError as ex:
+                            c.py_problem = {"site": "do_comparison_check(output integrand) raises", "operand": str(ex)}
+                else:
+                    c.py_problem = L.complex_node(out)
+                # ... and by the model in Coq when the integrand is serialisable
+                try:
+                    t = ufl2coq.Ser(ufl2coq.Ctx(), share=False).expr(out)
+                    if len(t) > 60000:
+                        raise ufl2coq.Unsupported("integrand too large")
+                    c.text = f"pipe_ok CL {t}" if mode == "complex" else f"pipe_clean {t}"
+                except ufl2coq.Unsupported:
+                    stats["fallback_python_only"] += 1
+                stats["integrands"] += 1
+                if mode == "complex" and L.count_tree(out, lambda x: isinstance(x, L.ORDERING)):
+                    stats["complex_with_ordering_sites"] = stats.get("complex_with_ordering_sites", 0) + 1
+                cases.append(c)
+    stats["error_samples"] = errs
+    run.extra.setdefault("generator", {})["pipeline"] = stats
+    return cases
 
 
 def known_witness():
@@ -310,9 +400,10 @@ def replay_power_hang(run, known, timeout=8):
     except subprocess.TimeoutExpired as ex:
         out = (ex.stdout or b"").decode() if isinstance(ex.stdout, bytes) else (ex.stdout or "")
         if "control-ok" in out and "returned" not in out:
-            run.known(f"{known['id']}: do_comparison_check(x[0]**f) (f a Coefficient) does not return within "
-                      f"{timeout}s (float(exponent) -> Terminal.evaluate -> float(self) recursion); "
-                      "x[0]**x[1] returns immediately")
+            if run is not None:
+                run.known(f"{known['id']}: do_comparison_check(x[0]**f) (f a Coefficient) does not return within "
+                          f"{timeout}s (float(exponent) -> Terminal.evaluate -> float(self) recursion); "
+                          "x[0]**x[1] returns immediately")
             return True
     return False
 
@@ -366,12 +457,40 @@ def main(run):
     bad = check_cases(run, cases, 150 if quick else 400)
 
     mark("t3_coq")
+    # pipeline tie
+    pcases = pipeline_cases(run, 70 if quick else 400, run.seed)
+    for c in pcases:
+        c.structural = c.text is not None
+        run.count_case(("pipeline", c.mode, repr(c.integrand)[:4000]))
+    pbad = check_cases(run, pcases, 80 if quick else 200, fam="pipe")
+    preported = 0
+    for c in pcases:
+        if c.py_problem is None and c not in pbad:
+            continue
+        if preported >= 6:
+            break
+        preported += 1
+        run.violation({"what": ("complex mode: an ordering comparison with an unwrapped / possibly complex operand "
+                                "survives compute_form_data" if c.mode == "complex" else
+                                "real mode: a Conj / Real / Imag / complex literal survives compute_form_data"),
+                       "mode": c.mode, "form_kind": c.kind, "form": str(c.form)[:3000], "form_repr": repr(c.form)[:6000],
+                       "options": c.opts, "output_integrand": str(c.integrand)[:3000],
+                       "offending": c.py_problem, "model_obligation_failed": c in pbad,
+                       "reproduce": "compute_form_data(<form>, complex_mode=%s, **options)" % (c.mode == "complex")},
+                      c.py_problem is not None)
+    if pcases:
+        c = pcases[0]
+        run.sample({"case": c.name, "pipeline": c.kind, "mode": c.mode, "form": str(c.form)[:160],
+                    "output_integrand": str(c.integrand)[:200]})
+    mark("pipeline")
     # property oracle on every accepted case (complex-valued numeric evaluation)
     known = vlib.load_known_findings("C23")
     kn = next((k for k in known if k.get("id") == "partial-mathfn-typed-real"), None)
-    L.KNOWN_CLASS_ACTIVE = kn is not None and not VARIANT["fixm"]
-    if VARIANT["fixm"]:
-        kn = None       # the source types ln/acos/asin/Bessel complex: the finding explains nothing any more
+    missing = [c for c in L.MUST_BE_COMPLEX if c not in VARIANT["cl"]]
+    run.extra["classes_not_typed_complex"] = missing
+    L.KNOWN_CLASS_ACTIVE = kn is not None and bool(missing)
+    if not missing:
+        kn = None       # the source types sqrt/ln/acos/asin/Bessel complex: the finding explains nothing any more
     oracle_hits, known_hits = [], 0
     for c in cases:
         if c.out is None:
@@ -452,13 +571,36 @@ def main(run):
                        "what": "den out = den inp (re, conj = identity) not provable"}, False)
 
     mark("t2_coq")
-    # known finding
+    # known findings / defective variants.  A variant of the analysis that is known to be unsound (a class of
+    # MUST_BE_COMPLEX not typed complex; power calling float() on arbitrary exponents) is reported as a
+    # KNOWN-FINDING only while an OPEN entry of known/C23.json records it; otherwise it is a VIOLATION with
+    # a concrete accepted comparison on a non-real value (resp. the non-returning input) as failing input.
     if kn is not None:
         if not replay_known(run, kn):
             run.extra["known_not_reproduced"] = kn["id"]
+    elif missing:
+        ws = L.variant_witnesses(missing, run_complex)
+        for cls in missing:
+            for w in ws.get(cls, [])[:1]:
+                run.violation({"what": f"the analysis does not type {cls} nodes complex and accepts an ordering "
+                                       "comparison on a non-real value (no open known finding records this variant)",
+                               "mode": "complex", "input": w["input"], "input_repr": w["input_repr"],
+                               "output": w["output"], "detail": w["problem"],
+                               "reproduce": "do_comparison_check(<input>); bin/check C23"}, True)
+            if not ws.get(cls):
+                run.violation({"what": f"the analysis does not type {cls} nodes complex (unsound variant, "
+                                       "C23_types needs the false hypothesis that it maps reals to reals)"}, False)
     kh = next((k for k in known if k.get("id") == "power-exponent-float-recursion"), None)
-    if kh is not None and not replay_power_hang(run, kh):
-        run.extra["known_not_reproduced_2"] = kh["id"]
+    if kh is not None:
+        if not replay_power_hang(run, kh):
+            run.extra["known_not_reproduced_2"] = kh["id"]
+    elif not VARIANT["fixp"]:
+        if replay_power_hang(None, {"id": "power-exponent-float-recursion"}):
+            run.violation({"what": "CheckComparisons.power calls float() on a non-literal exponent: "
+                                   "do_comparison_check does not return (no open known finding records this)",
+                           "mode": "complex", "input": "SpatialCoordinate(mesh)[0] ** Coefficient(V)",
+                           "observed": "no result within 8 s; x[0]**x[1] returns immediately",
+                           "reproduce": "see HANG_SNIPPET in py/props/C23.py"}, True)
 
     mark("known_replay")
     run.trusted.update([
